@@ -985,6 +985,12 @@ def wl_linop(rng, rec, tier):
     outer = [ix for ix, c in cnt.items() if c == 1]
     tn = gen.build_tn(rng, spec, exponent=gen.rand_exponent(rng))
     left, right = gen.rand_partition(rng, outer, 2)
+    if rng.random() < 0.5:
+        # prefer a square operator when the labels allow one (trace is defined)
+        for _ in range(8):
+            if int(np.prod([tn.ind_size(ix) for ix in left])) == int(np.prod([tn.ind_size(ix) for ix in right])):
+                break
+            left, right = gen.rand_partition(rng, outer, 2)
     as_tn = rng.random() < 0.6
     if as_tn:
         lo = gen.attempt(tn.aslinearoperator, left, right,
@@ -1022,13 +1028,13 @@ def wl_linop(rng, rec, tier):
             nxt = gen.attempt(cur.conj)
             ops.append("conj")
             cur = nxt or cur
-        elif r < 0.88:
+        elif r < 0.86:
             tgt = gen.choice(rng, ["complex128", "complex64"] if np.dtype(dt).kind == "c"
                              else ["float32", "float64", "complex128"])
             nxt = gen.attempt(cur.astype, tgt)
             ops.append("astype:" + tgt)
             cur = nxt or cur
-        elif r < 0.94:
+        elif r < 0.9:
             x = gen.rand_array(rng, (n,), dt)
             gen.attempt(cur.rmatvec, x)
             ops.append("rmatvec")
@@ -1036,6 +1042,14 @@ def wl_linop(rng, rec, tier):
             if n == m:
                 gen.attempt(cur.trace)
                 ops.append("trace")
+                if rng.random() < 0.5:
+                    # the same question asked of a derived view straight away
+                    # (views share caches with the operator they come from)
+                    view = gen.choice(rng, ["conj", "H", "T"])
+                    v = gen.attempt(cur.conj) if view == "conj" else gen.attempt(lambda: getattr(cur, view))
+                    if v is not None:
+                        gen.attempt(v.trace)
+                        ops.append(view + ".trace")
     return {"spec": spec["tensors"], "exponent": tn.exponent, "left": left,
             "right": right, "ops": ops}
 
